@@ -681,6 +681,79 @@ fn run_msg_esk(c: &MsgEskCase) -> Outcome {
     o
 }
 
+#[derive(Clone, Debug, Hash, Serialize, Deserialize)]
+pub struct CertRecipientCase {
+    pub kind: KeyKind,
+    pub v2: bool,
+}
+
+/// A whole certificate handed to `encrypt_to_key`: refused, or the PKESK names a component key
+/// of that certificate, carries that key's algorithm, and that key opens it.
+fn run_cert_recipient(c: &CertRecipientCase) -> Outcome {
+    use pgp::composed::{Message, MessageBuilder};
+    use pgp::crypto::{aead::{AeadAlgorithm, ChunkSize}, sym::SymmetricKeyAlgorithm};
+    use std::io::Read;
+    let cert = common::cert(c.kind, 3);
+    let public = cert.to_public_key();
+    let b0 = MessageBuilder::from_bytes("", b"to a certificate".to_vec());
+    let built = if c.v2 {
+        let mut b = b0.seipd_v2(crate::engine::rng(8), SymmetricKeyAlgorithm::AES128, AeadAlgorithm::Ocb, ChunkSize::default());
+        match b.encrypt_to_key(crate::engine::rng(9), &public).map(|_| ()) {
+            Ok(()) => b.to_vec(crate::engine::rng(10)),
+            Err(e) => Err(e),
+        }
+    } else {
+        let mut b = b0.seipd_v1(crate::engine::rng(8), SymmetricKeyAlgorithm::AES128);
+        match b.encrypt_to_key(crate::engine::rng(9), &public).map(|_| ()) {
+            Ok(()) => b.to_vec(crate::engine::rng(10)),
+            Err(e) => Err(e),
+        }
+    };
+    let bytes = match built {
+        Ok(b) => b,
+        // a certificate whose primary key cannot encrypt is not a recipient
+        Err(_) => return Outcome::ok("refused"),
+    };
+    let mut o = Outcome::ok("names-the-key-it-encrypted-to");
+    let Ok(ps) = codec::split_packets(&bytes) else {
+        return Outcome::bad("C13:esk:unsplittable", String::new());
+    };
+    let Some(p) = ps.iter().find(|p| p.0 == 1) else {
+        return Outcome::bad("C13:esk:no-pkesk", String::new());
+    };
+    let Ok(d) = codec::decode_packet(1, &p.2) else {
+        return Outcome::bad("C13:esk:undecodable", String::new());
+    };
+    let named: Vec<u8> = sub_field(&p.2, &d, if c.v2 { Kind::Fingerprint } else { Kind::KeyId }).map(|x| x.to_vec()).unwrap_or_default();
+    let alg = sub_field(&p.2, &d, Kind::PkAlg).and_then(|x| x.first().copied());
+    // component keys: (id as the PKESK version writes it, algorithm octet)
+    let mut comps: Vec<(Vec<u8>, u8)> = Vec::new();
+    let id_of = |fp: &pgp::types::Fingerprint, kid: pgp::types::KeyId| if c.v2 { fp.as_bytes().to_vec() } else { kid.as_ref().to_vec() };
+    comps.push((id_of(&public.primary_key.fingerprint(), public.primary_key.legacy_key_id()), u8::from(public.primary_key.algorithm())));
+    for sk in &public.public_subkeys {
+        comps.push((id_of(&sk.key.fingerprint(), sk.key.legacy_key_id()), u8::from(sk.key.algorithm())));
+    }
+    match comps.iter().find(|(id, _)| *id == named) {
+        None => o.push("C13:esk:certificate-recipient:names-no-key-of-the-certificate", format!("{c:?}: {}", hex::encode(&named))),
+        Some((_, a)) => {
+            if alg != Some(*a) {
+                o.push("C13:esk:certificate-recipient:algorithm-is-not-the-named-key's", format!("{c:?}: PKESK algorithm {alg:?}, the key it names has algorithm {a}"));
+            }
+        }
+    }
+    // the certificate's secret half opens it
+    let opened = Message::from_bytes(&bytes[..]).map_err(|e| e.to_string()).and_then(|m| m.decrypt(&Password::empty(), &cert).map_err(|e| e.to_string())).and_then(|mut m| {
+        let mut out = Vec::new();
+        m.read_to_end(&mut out).map_err(|e| e.to_string())?;
+        Ok(out)
+    });
+    match opened {
+        Ok(data) if data == b"to a certificate" => {}
+        other => o.push("C13:esk:certificate-recipient:named-key-does-not-open-the-message", format!("{c:?}: {:?}", other.map(|d| d.len()))),
+    }
+    o
+}
+
 pub fn check(ctx: &Ctx) {
     // the former thorough bounds take seconds: they are the quick tier now; `deep` = thorough
     let _quick = false;
@@ -823,6 +896,19 @@ pub fn check(ctx: &Ctx) {
         ec.into_par_iter(),
         run_msg_esk,
     );
+    let mut cr = Vec::new();
+    for kind in [KeyKind::Ed25519V4, KeyKind::Ed25519LegacyV4, KeyKind::EcdsaP256V4, KeyKind::EcdsaP521V4, KeyKind::Rsa2048V4, KeyKind::Ed25519V6, KeyKind::Ed448V6, KeyKind::EcdsaP256V6, KeyKind::Rsa2048V6] {
+        for v2 in [false, true] {
+            cr.push(CertRecipientCase { kind, v2 });
+        }
+    }
+    ctx.run_space(
+        "certificates_as_recipients",
+        true,
+        "a whole certificate (SignedPublicKey) handed to MessageBuilder::encrypt_to_key, 9 key kinds x SEIPDv1 / SEIPDv2: either refused, or the PKESK names a component key of the certificate, carries that key's algorithm, and the certificate's secret half opens the message",
+        cr.into_par_iter(),
+        run_cert_recipient,
+    );
     ctx.assume("for non-canonical MPI encodings only stability is demanded: the library hashes its own re-serialisation while the RFC hashes the wire octets");
 }
 
@@ -832,6 +918,7 @@ pub fn replay(space: &str, case: &Value) -> Option<Outcome> {
         "generated_keys" => replay_as(case, run_generated),
         "one_pass_issuers" => replay_as(case, run_ops),
         "message_recipient_fields" => replay_as(case, run_msg_esk),
+        "certificates_as_recipients" => replay_as(case, run_cert_recipient),
         _ => None,
     }
 }
